@@ -59,6 +59,62 @@ CLAIMED = {
         note="Closed under the global context. C3 MRO, inspect.signature, name mangling are inputs of the model (trusted CPython).",
         technique="Coq proof (induction over class-body lists) + regenerated reserved-name list + correspondence evaluated in Coq",
         design="6.2"),
+    "C01": dict(
+        text="Theorems (Coq, every machine shape, every user code, every history/clock pattern, any nesting of next_state_now): the request "
+             "flag equals 'engage() since the previous iteration'; without it no regular state function is called; the machine then stops "
+             "(through done()) as soon as no must_finish state runs and only the default state runs until engage(); with it exactly "
+             "1 + #next_state_now state functions run; the invariant used is preserved by every operation. Tied to StateMachine.execute by "
+             "full-trace correspondence on generated machines/scripts/histories.",
+        note='Closed under the global context. Theorems that mention `ok` hold inside the usage contract K (DESIGN 6.1: in-state actions only while executing, no explicit transition into the default state, non-decreasing clock, no exception); clock arithmetic idealised over Z ticks (dyadic clocks in the correspondence); single-threaded use.', technique="Coq proof (invariants by induction on fuel and on histories) + trace correspondence evaluated in Coq", design="6.1"),
+    "C02": dict(
+        text="Theorems (Coq): a timed state that has run holds until tm exceeds entry+duration; at the first iteration past it control goes to "
+             "next_state whose clock starts at the predecessor's expiry and whose expiry uses its duration tunable as of that moment; the last "
+             "state's expiry calls done() and restarts a still-requested machine in a clock frame moved to the expiry instant; an entered state "
+             "always runs once; duration writes do not move an entered state's expiry; state_tm >= 0 on every call of every history; NO DRIFT: "
+             "for every non-decreasing list of iteration instants a continuously engaged quiet machine enters every state exactly at the previous "
+             "state's expiry (chain theorem, across cycle restarts). Tied by full-trace correspondence incl. duration writes over NetworkTables.",
+        note='Closed under the global context. Theorems that mention `ok` hold inside the usage contract K (DESIGN 6.1: in-state actions only while executing, no explicit transition into the default state, non-decreasing clock, no exception); clock arithmetic idealised over Z ticks (dyadic clocks in the correspondence); single-threaded use.', technique="Coq proof (symbolic execution lemmas per phase + invariant + chain induction) + trace correspondence evaluated in Coq", design="6.1"),
+    "C03": dict(
+        text="Theorems (Coq): the call adapter passes the i-th declared parameter its own value for every declared list; over every history and "
+             "every user code (no contract needed) initial_call is True exactly on the first call since the state was entered (reference automaton "
+             "over observable next_state()/fallback events); tm is 0 at the first iteration after engage() on a stopped machine, tm = clock - origin "
+             "and state_tm = tm - entry, both non-negative on every call. Tied by correspondence with all 16 parameter orders x 3 decorators.",
+        note='Closed under the global context. Theorems that mention `ok` hold inside the usage contract K (DESIGN 6.1: in-state actions only while executing, no explicit transition into the default state, non-decreasing clock, no exception); clock arithmetic idealised over Z ticks (dyadic clocks in the correspondence); single-threaded use.', technique="Coq proof (trace refinement to a reference automaton, invariants) + trace correspondence evaluated in Coq", design="6.1"),
+    "C04": dict(
+        text="Theorems (Coq): whatever operation takes is_executing from True to False, done() was invoked (no contract needed); done()/on_disable() "
+             "reset is_executing/current_state at once; in every reachable stopped state current_state is '' and only the default state runs until "
+             "engage(); the next engage()+iteration calls the first/requested state with initial_call True, tm 0; while executing, current_state names "
+             "the machine's non-default state. Tied by full-trace correspondence (done()/next_state() observed through overrides).",
+        note='Closed under the global context. Theorems that mention `ok` hold inside the usage contract K (DESIGN 6.1: in-state actions only while executing, no explicit transition into the default state, non-decreasing clock, no exception); clock arithmetic idealised over Z ticks (dyadic clocks in the correspondence); single-threaded use.', technique="Coq proof (invariants, drop-claim composition) + trace correspondence evaluated in Coq", design="6.1"),
+    "C13": dict(
+        text="Theorems (Coq): on_iteration with the latch on is exactly engage(); execute(); latch := is_executing; once done() is invoked in an "
+             "iteration (any nesting depth, or last timed state expired) the iteration ends stopped with the latch off - the machine never cycles; "
+             "then every on_iteration is a no-op (not even the default state runs) until on_enable(), which restarts at the first state with tm 0; "
+             "on_disable() stops immediately. Tied by full-trace correspondence on generated AutonomousStateMachine subclasses over 1..n periods.",
+        note='Closed under the global context. Theorems that mention `ok` hold inside the usage contract K (DESIGN 6.1: in-state actions only while executing, no explicit transition into the default state, non-decreasing clock, no exception); clock arithmetic idealised over Z ticks (dyadic clocks in the correspondence); single-threaded use.', technique="Coq proof (induction on fuel/histories) + trace correspondence evaluated in Coq", design="6.1"),
+    "C16": dict(
+        text="Theorems (Coq, every period, start time and list of body durations over Z microseconds): expiry stays on the t0+k*P grid; the k-th wait "
+             "returns at max(call, t0+k*P), never early, exactly on the grid when called on time; overruns are caught up (lateness recurrence and bound); "
+             "after free()/with-exit every wait returns at its call time and the handle is released exactly once; round-to-nearest period conversion over Q. "
+             "Tied to NotifierDelay by correspondence under the simulated HAL (exact microseconds) + exhaustive float sweep of round(P*1e6) for n in [1000, 2000000].",
+        note="Closed under the global context. The HAL notifier is modelled as 'a wait issued at t with alarm a returns at max(t,a)' (validated by the correspondence only); uint64 as unbounded Z; OS scheduling latency not modelled.",
+        technique="Coq proof (induction over schedules) + correspondence under simulated HAL + exhaustive finite float sweep", design="6.8"),
+    "C18": dict(
+        text="Theorems (Coq over Q, unit chains of any depth with mutually inverse linear links): convert to the same unit is identity, there-and-back, "
+             "composition a->b->c = a->c, linearity, exact application order; for the unit table regenerated from the module on every run: 100 cm/m, 0.3048 m/ft, "
+             "12 in/ft and all 16 pairwise factors; sonar scale factors; pressure formula 250*V/Vcc-25 above the floor, totality, zero-supply branch, calibration. "
+             "Tied by symbolic correspondence (application logs of real Unit objects) and numeric correspondence (1e-12 relative) through the simulated devices.",
+        note="Closed under the global context. Float rounding is not modelled: the Q model is compared with doubles at relative tolerance 1e-12 on sampled inputs; NaN/inf/overflow outside the claim.",
+        technique="Coq proof over Q (induction over chains) + regenerated unit table + symbolic and numeric correspondence evaluated in Coq", design="6.10"),
+    "C14": dict(
+        text="Theorems (Coq, every package layout and lifecycle op sequence): constructor calls are exactly the MODE_NAME & not DISABLED classes of importable "
+             "modules, once each, keyed by MODE_NAME; chooser offers them plus 'None' with the DEFAULT preselected; without FMS discover raises iff duplicate / "
+             "several defaults / import failure / constructor failure; with FMS healthy modes are still offered (under no key clash); dashboard string wins over "
+             "the chooser; lifecycle: per period on_enable . on_iteration(t)* . on_disable of the selected mode only, t non-decreasing, nothing after on_disable. "
+             "Code-narrower-than-wording cases are stated as refutation theorems and documented. Tied by correspondence on generated packages on disk + run() periods "
+             "under the stepped simulated clock.",
+        note="Closed under the global context. Glob order, inspect.getmembers order, SendableChooser/NetworkTables/Timer are inputs or simple models validated by correspondence; mode callbacks assumed non-raising here (fault space is C07).",
+        technique="Coq proof (induction over layouts and op sequences) + correspondence on generated packages evaluated in Coq", design="6.7"),
 }
 
 PENDING_REASON = "check not built yet in this revision (model and proof planned in DESIGN.md section 6); not claimed until its check exists"
